@@ -296,7 +296,7 @@ def run(ctx):
     rng = ctx.rng
     explore(ctx, corpus_cases(), label="corpus: ")
     if ctx.thorough():
-        n_rand, n_cont, n_long = 9000, 3000, 1200
+        n_rand, n_cont, n_long = 24000, 6000, 2400
     else:
         n_rand, n_cont, n_long = 2400, 800, 300
     progs = [S.gen_program(rng, "c10") for _ in range(n_rand)]
